@@ -103,8 +103,10 @@ func (g *Gen) Input(n *Node) IVal {
 			return intV(int64(r.Intn(200) - 50))
 		case c < 92:
 			return boolV(r.P(50))
+		case c < 96:
+			return f64V(Pick(r, []float64{1.5, 0, 2, 1e21, -3.25, 0.1, 1e6, 123456789}))
 		default:
-			return f64V(Pick(r, []float64{1.5, 0, 2, 1e21, -3.25}))
+			return IVal{Kind: "f32", F: f32(Pick(r, []float64{0.1, 2.5, 16777217, 3.3, 1e10}))}
 		}
 	case KInt, KInt64, KInt32:
 		c := r.Intn(100)
